@@ -43,7 +43,15 @@ func (x *msgBB) q(vs ...uint64) *msgBB {
 }
 func (x *msgBB) raw(b []byte) *msgBB { x.b = append(x.b, b...); return x }
 func (x *msgBB) hex(s string) *msgBB { x.b = append(x.b, unhex(s)...); return x }
-func (x *msgBB) z(n int) *msgBB      { x.b = append(x.b, make([]byte, n)...); return x }
+// padByte is what z writes; 0 except while the cross-talk op builds frames of a peer that does not clear its padding
+var padByte byte
+
+func (x *msgBB) z(n int) *msgBB {
+	for i := 0; i < n; i++ {
+		x.b = append(x.b, padByte)
+	}
+	return x
+}
 
 // seq appends n byte-distinct values starting at s
 func (x *msgBB) seq(s, n int) *msgBB {
